@@ -109,7 +109,23 @@ def runtime_part(run, tier):
                     "grad_rel_err": r.get("grad_rel_err"), "time_ratio_2n_over_n": r.get("ratio"), "exception": r.get("exception")})
     run.extra["time_ratio_2n_over_n"] = ratios
 
-    for mode in ("plain", "no_grad"):
+    # many small random DAGs with shared intermediates (each op exactly once, gradient = forward-mode derivative)
+    ndag = 3000 if tier == "quick" else 30000
+    spec = {"kind": "dags", "first_seed": 0, "count": ndag, "max_ops": 10}
+    j = deep.run_job(spec, timeout=900)
+    if j["status"] != "ok":
+        run.error("dag job: %s in phase %s: %s" % (j["status"], j.get("last_phase"), j.get("stderr_tail", "")[-400:]))
+    else:
+        r = j["result"]
+        for sd in range(ndag):
+            run.rt(("dag", sd))
+        run.extra["random_dags"] = {"count": ndag, "ops": "3-12 binary elementwise ops each", "failing": r["n_bad"]}
+        for bd in r["bad"][:5]:
+            once = "invocations" in bd["what"]
+            run.violation("backward.each_op_exactly_once" if once else ("backward.completes_on_any_graph" if "raised" in bd["what"] else "backward.leaf_gradient"),
+                          "random DAG seed %d (%d ops, shared intermediates): %s [%d of %d DAGs fail]" % (bd["seed"], bd["ops"], bd["what"], r["n_bad"], ndag),
+                          key={"family": "dag", "seed": bd["seed"], "clause": "dag"}, replay={"cmd": j["cmd"].replace(json_of(spec), json_of({**spec, "first_seed": bd["seed"], "count": 1})), "case": bd})
+    for mode in ("plain", "no_grad", "no_grad_reused"):
         spec = {"kind": "untracked", "mode": mode, "loops": LOOPS}
         j = deep.run_job(spec, timeout=300)
         if j["status"] != "ok":
@@ -118,7 +134,11 @@ def runtime_part(run, tier):
         runs = j["result"]["runs"]
         for u in runs:
             run.rt(("untracked", mode, u["loop"]))
-            if u["result_requires_grad"] or u["result_has_grad_fn"] or not u["value_ok"]:
+            if mode != "plain" and (u["result_requires_grad"] or u["result_has_grad_fn"]):
+                run.violation("untracked.no_history_inside_no_grad", "a tensor computed inside an open no_grad() block (%s) has requires_grad=%s, grad_fn %s" %
+                              (mode, u["result_requires_grad"], "set" if u["result_has_grad_fn"] else "None"), key={"mode": mode, "clause": "tracked_inside_no_grad", "loop": u["loop"]},
+                              replay={"cmd": j["cmd"], "spec": spec, "result": j["result"]})
+            elif u["result_requires_grad"] or u["result_has_grad_fn"] or not u["value_ok"]:
                 run.error("untracked %s loop %d: harness precondition failed %s" % (mode, u["loop"], u))
         small, big = runs[0], runs[-1]
         alive = [u for u in runs if u["operands_alive"] > LAST_FEW]
@@ -133,6 +153,11 @@ def runtime_part(run, tier):
         run.sample({"untracked": mode, "runs": runs})
 
 
+def json_of(spec):
+    import json
+    return json.dumps(spec)
+
+
 def main(tier="quick", seed=0, procs=None, only=None):
     run = Run("C17", tier, seed, "other")
     run.assume("CPython reference counting + gc.collect() decide liveness; gc.get_objects() sees every Tensor (instances carry a __dict__)",
@@ -143,7 +168,9 @@ def main(tier="quick", seed=0, procs=None, only=None):
                   "chains": "sequential ops n in %s (and 2n for timing); mul/add/neg/reshape on a float64 leaf of 3 elements" % DEPTHS[tier],
                   "shallow graphs": "chain/ladder 400 (+800), fan-in of 1000 (+2000) products of one leaf summed by a balanced add tree, "
                                     "wide graphs of %s ops in branches of depth 200" % [n for f, n, _ in SHALLOW[tier] if f == "wide"],
-                  "untracked loops": "w = w - 0.1*g, lengths %s, (a) operands not requiring grad, (b) operands requiring grad inside no_grad()" % LOOPS,
+                  "untracked loops": "w = w - 0.1*g, lengths %s, (a) operands not requiring grad, (b) operands requiring grad inside no_grad(), (c) the same inside an open no_grad block "
+                                     "that also enters a stored, re-used no_grad object" % LOOPS,
+                  "random DAGs": "%d seeded DAGs of 3-12 binary elementwise ops over one leaf and earlier nodes (shared intermediates)" % (3000 if tier == "quick" else 30000),
                   "tolerances": "gradient rel %g; time(2n)/time(n) < %g (min of 2 runs each, cyclic GC paused while timing); <= %d operands alive; <= %d live tensors added"
                                 % (REL_TOL, RATIO_MAX, LAST_FEW, LIVE_MAX)}
     run.rule = ("static obligation = one syntactic fact about one function (counted as obligation); run-time evaluation = one graph (family, size) "
